@@ -10,6 +10,6 @@ require (
 	pgregory.net/rapid v1.3.0
 )
 
-require github.com/google/uuid v1.3.0 // indirect
+require github.com/google/uuid v1.3.0
 
 replace github.com/Tnze/go-mc => /repo
